@@ -121,6 +121,11 @@ def check(rep, ctx):
             else:
                 ok = t is not None and any(isinstance(x, tuple) for x in [t]) and "max" in show_term(t) and contains(t, ("elem", records)) \
                     and contains(t, "timestamp")
+            if t is not None and contains(t, "loop-exit"):
+                # computed by a loop that carries state from one record to the next (a running maximum): what the loop leaves behind
+                # is not summarised -- a limit of the analysis, not a verdict
+                rep.limit(f"{fn.ref}: slot {name} is left behind by a loop with carried state ({show_term(t)[:80]}): not decided")
+                continue
             rep.check(R_P, ok, construct=fn.ref, stmt=f"{name} <- {show_term(t)[:160]}",
                       message=f"{case}: slot {name} is {show_term(t)[:200]}, expected the millisecond timestamp of "
                               f"{'the first record' if name == 'base_timestamp' else 'the maximum over all records'}",
